@@ -5,6 +5,7 @@ import (
 	"crypto/sha256"
 	"encoding/json"
 	"fmt"
+	"io"
 	"math/rand"
 	"os"
 	"os/exec"
@@ -23,7 +24,7 @@ import (
 
 func init() {
 	props["C20"] = &propDef{
-		rule: "cases = scenarios: a pool of shared read-only inputs (clear and cenc/cbcs-encrypted fragmented files built from AVC/HEVC/AAC samples, protected streams in every IV layout {cenc per-sample IV 16/8, cbcs constant IV 16/8, cbcs per-sample IV 16/8} both as one file and as separate init-segment / media-segment buffers (with the clear segments next to them), generated progressive files, repo test files, single-box blobs, AC-3/E-AC-3 init segments, one shared table of 8-byte IVs) x tasks {decode via io.Reader / slice reader / lazy mdat, Info at several levels, re-encode, sample extraction + NAL inspection, in-place Annex B conversion on the goroutine's own decoded samples, encrypt (InitProtect+EncryptFragment, 16-byte IVs and 8-byte IVs cut from the shared table), AC-3/E-AC-3 channel-layout helpers, decrypt (DecryptInit+DecryptSegment), decrypt pipeline (shared init decoded as file or box by box with either decoder, DecryptInit, shared media segments decoded with either decoder, DecryptFragment / DecryptSegment), encrypt pipeline (ExtractInitProtectData of the shared protected init + EncryptFragment of the shared clear segments), DecodeBox/DecodeBoxSR}; every input slice handed to the library is a window with cap > len into an arena with guard bytes behind each slice; every task is first run alone, then all tasks of the scenario run in parallel goroutines (several rounds, GOMAXPROCS 1..16) under the race detector; checks: each goroutine's digest equals its solo digest, the shared input bytes and the guard bytes behind them are unchanged, and the race detector reports nothing inside mp4ff; non-trivial = distinct (task, input) pair",
+		rule: "cases = scenarios: a pool of shared read-only inputs (clear and cenc/cbcs-encrypted fragmented files built from AVC/HEVC/AAC samples, protected streams in every IV layout {cenc per-sample IV 16/8, cbcs constant IV 16/8, cbcs per-sample IV 16/8} both as one file and as separate init-segment / media-segment buffers (with the clear segments next to them), generated progressive files, repo test files, single-box blobs (moov, moof, mdat), header-only boxes (size 8: free, skip, unknown types, empty mdat, empty containers = well-formed; boxes with mandatory fields = malformed) alone and as small files behind an ftyp, AC-3/E-AC-3 init segments, one shared table of 8-byte IVs) x tasks {decode via io.Reader / slice reader / lazy mdat, Info at several levels, re-encode, sample extraction (GetFullSamples, GetSampleInterval, sample-table ranges + MdatBox.ReadData on all three decoder paths, MdatBox.Data) + NAL inspection + in-place Annex B conversion and overwriting of the sample bytes handed out, in-place Annex B conversion on the goroutine's own decoded samples, encrypt (InitProtect+EncryptFragment, 16-byte IVs and 8-byte IVs cut from the shared table), AC-3/E-AC-3 channel-layout helpers, decrypt (DecryptInit+DecryptSegment), decrypt pipeline (shared init decoded as file or box by box with either decoder, DecryptInit, shared media segments decoded with either decoder, DecryptFragment / DecryptSegment), encrypt pipeline (ExtractInitProtectData of the shared protected init + EncryptFragment of the shared clear segments), DecodeBox/DecodeBoxSR}; every input slice handed to the library is a window with cap > len into an arena with guard bytes behind each slice; every task is first run alone (tasks on malformed inputs last), then all tasks of the scenario run in parallel goroutines (several rounds, GOMAXPROCS 1..16) under the race detector; then every task runs alone once more in a shuffled order; checks: each goroutine's digest and the later solo digest equal the first solo digest, the shared input bytes and the guard bytes behind them are unchanged, and the race detector reports nothing inside mp4ff; non-trivial = distinct (task, input) pair",
 		gen:  genC20,
 		exec: execC20,
 	}
@@ -34,7 +35,11 @@ type c20Input struct {
 	data   []byte
 	key    []byte // for decrypt
 	scheme string // "" clear | cenc | cbcs
-	kind   string // frag | prog | box | pipe
+	kind   string // frag | prog | box | boxes | pipe
+	// malformed: the input is deliberately not a well-formed box / file (the library must reject it).  Tasks on
+	// malformed inputs run LAST in the solo pass: the solo reference of every well-formed input is taken in a process
+	// that has not yet been shown a malformed one, so state left behind by an error path shows up as a difference
+	malformed bool
 	// kind "pipe": a protected stream as separate shared buffers (init segment, media segments)
 	init        []byte
 	segs        [][]byte
@@ -194,7 +199,20 @@ func runTask(t c20Task) (out string) {
 							if t.in.scheme == "" && strings.Contains(t.in.name, "hevc") {
 								fmt.Fprint(h, hevc.FindNaluTypes(fs.Data), hevc.IsRAPSample(fs.Data))
 							}
+							c20UseSample(h, fs.Data, t.in.scheme == "" && (strings.Contains(t.in.name, "avc") || strings.Contains(t.in.name, "hevc")))
 						}
+						// (a traf without tfdt, as in Smooth Streaming files, is not given to GetSampleInterval: it dereferences traf.Tfdt)
+						if n := uint32(len(fss)); n > 0 && fr.Moof.Traf != nil && fr.Moof.Traf.Tfdt != nil {
+							// the same samples as one interval (the accessor the segmenter-style callers use)
+							if si, err := fr.GetSampleInterval(trex, 1+n/2, n); err == nil {
+								fmt.Fprint(h, si.FirstDecodeTime, si.OffsetInMdat, si.Size, len(si.Samples))
+								c20UseSample(h, si.Data, false)
+							}
+						}
+					}
+					// the fragment's media data box itself (public field of the task's own decoded structure)
+					if fr.Mdat != nil && !fr.Mdat.IsLazy() {
+						c20UseSample(h, fr.Mdat.Data, false)
 					}
 				}
 			}
@@ -204,22 +222,45 @@ func runTask(t c20Task) (out string) {
 				if n == 0 {
 					continue
 				}
-				if f[1] == "lazy" {
-					ss, err := tr.GetSampleData(1, n)
-					fmt.Fprint(h, len(ss), err == nil)
-				} else {
-					ss, err := tr.GetSampleData(1, n)
-					if err == nil {
-						for _, s := range ss {
-							fmt.Fprintf(h, "%+v;", s)
-						}
+				ss, err := tr.GetSampleData(1, n)
+				fmt.Fprint(h, len(ss), err == nil)
+				if err == nil && f[1] != "lazy" {
+					for _, s := range ss {
+						fmt.Fprintf(h, "%+v;", s)
 					}
-					if file.Mdat != nil {
-						for _, s := range ss {
-							_ = s
+				}
+				if file.Mdat == nil {
+					continue
+				}
+				// the sample payloads, the way the progressive-file callers (and the library's own tools) fetch them:
+				// byte ranges from the sample tables, bytes from MdatBox.ReadData (lazy mdat: through a ReadSeeker
+				// on the shared input); each sample alone, then the whole track as chunk ranges
+				var rs io.ReadSeeker
+				if file.Mdat.IsLazy() {
+					rs = bytes.NewReader(in)
+				}
+				video := tr.Mdia.Hdlr != nil && tr.Mdia.Hdlr.HandlerType == "vide"
+				for nr := uint32(1); nr <= n && nr <= 64; nr++ {
+					rgs, err := tr.GetRangesForSampleInterval(nr, nr)
+					fmt.Fprint(h, len(rgs), err == nil)
+					for _, rg := range rgs {
+						data, err := file.Mdat.ReadData(int64(rg.Offset), int64(rg.Size), rs)
+						fmt.Fprint(h, rg.Offset, rg.Size, err == nil)
+						if err == nil {
+							c20UseSample(h, data, video)
 						}
 					}
 				}
+				if rgs, err := tr.GetRangesForSampleInterval(1, n); err == nil {
+					for _, rg := range rgs {
+						if data, err := file.Mdat.ReadData(int64(rg.Offset), int64(rg.Size), rs); err == nil {
+							c20UseSample(h, data, false)
+						}
+					}
+				}
+			}
+			if file.Mdat != nil && !file.Mdat.IsLazy() {
+				c20UseSample(h, file.Mdat.Data, false)
 			}
 		}
 		return fmt.Sprintf("%x", h.Sum(nil)[:10])
@@ -407,9 +448,39 @@ func runTask(t c20Task) (out string) {
 		var ib, eb bytes.Buffer
 		_ = b.Info(&ib, "all:1", "", " ")
 		_ = b.Encode(&eb)
+		if md, ok := b.(*mp4.MdatBox); ok {
+			// a media data box decoded on its own: its payload is the caller's to work on in place
+			c20UseSample(&ib, md.Data, false)
+			_ = b.Encode(&eb)
+		}
 		return digest(ib.Bytes(), eb.Bytes())
 	}
 	return "bad-op"
+}
+
+// c20UseSample does with sample bytes handed out by the library (Fragment.GetFullSamples, GetSampleInterval,
+// MdatBox.ReadData, MdatBox.Data of the task's OWN decoded structure) what callers do with them: hash them, convert
+// them in place between length-prefixed NAL units and Annex B byte stream (avc.ConvertSampleToByteStream /
+// ConvertByteStreamToNaluSample work in place, as do the crypto helpers), and finally overwrite every byte.  The media
+// data of a decoded file belongs to the decoded structure, not to the input the file was decoded from: the library's
+// in-place sample helpers are documented as such and DecodeMdatSR copies the payload for exactly this reason; no
+// comment of DecodeFileSR / DecodeBoxSR / MdatBox says that sample data refers to the caller's buffer.  (Parameter
+// sets, IVs, unknown-box payloads ... decoded through the slice reader are NOT written to: the unchanged library keeps
+// them as sub-slices of the input without saying either way, so writing through them is not covered by the property.)
+func c20UseSample(h io.Writer, data []byte, nalus bool) {
+	h.Write(data)
+	if nalus && len(data) > 4 {
+		if _, err := avc.GetNalusFromSample(data); err == nil {
+			bs := avc.ConvertSampleToByteStream(data)
+			h.Write(bs)
+			back := avc.ConvertByteStreamToNaluSample(bs)
+			h.Write(back)
+		}
+	}
+	for i := range data {
+		data[i] ^= 0xa5
+	}
+	h.Write([]byte{0xfd})
 }
 
 // c20DecodeInit: an init segment from shared bytes, as a file (rd | sr) or box by box (boxrd | boxsr)
@@ -718,13 +789,50 @@ func c20BuildInputs(r *rand.Rand, thorough bool) []*c20Input {
 	// single boxes: the moov/moof of the first inputs
 	for _, in := range ins[:3] {
 		for _, w := range walkTop(in.data) {
-			if w.typ == "moov" || w.typ == "moof" {
+			if w.typ == "moov" || w.typ == "moof" || w.typ == "mdat" {
 				ins = append(ins, &c20Input{name: fmt.Sprintf("box-%s@%d-%s", w.typ, w.off, in.name), data: cp(in.data[w.off : w.off+w.size]), kind: "box"})
 			}
 		}
 	}
+	ins = append(ins, c20EmptyBodyInputs(r)...)
 	for _, in := range ins {
 		in.seal()
+	}
+	return ins
+}
+
+// c20EmptyBodyInputs: boxes at the lower size boundary, header only (size field 8, no body).  Well-formed ones: the
+// padding boxes free/skip, boxes the library does not know (QuickTime's wide, a random four-character code), an empty
+// mdat, containers without children; malformed ones: boxes whose definition has mandatory fields (full-box
+// version/flags and more), cut right behind the header.  Each as a single-box input (DecodeBox / DecodeBoxSR) and
+// as small files: ftyp followed by a random selection of well-formed empty boxes, and the same with one malformed box
+// appended.  Every decode wraps such a body in a per-call reader of zero bytes.
+func c20EmptyBodyInputs(r *rand.Rand) []*c20Input {
+	hdr := func(typ string) []byte { return append([]byte{0, 0, 0, 8}, typ[:4]...) }
+	unk := make([]byte, 4)
+	for i := range unk {
+		unk[i] = byte('a' + r.Intn(26))
+	}
+	unk[0] = 'z' // no registered type starts with z
+	valid := []string{"free", "skip", "wide", string(unk), "mdat", "udta", "dinf", "edts", "mvex", "mfra", "moof"}
+	bad := []string{"traf", "mfhd", "tfdt", "mvhd", "tkhd", "mdhd", "hdlr", "stsd", "stts", "trex", "tfhd", "trun", "sidx", "ftyp", "styp"}
+	var ins []*c20Input
+	for _, t := range valid {
+		ins = append(ins, &c20Input{name: "box-empty-" + t, data: hdr(t), kind: "box"})
+	}
+	ftyp := []byte{0, 0, 0, 16, 'f', 't', 'y', 'p', 'i', 's', 'o', 'm', 0, 0, 0, 0}
+	top := []string{"free", "skip", "wide", string(unk), "udta", "mdat"}
+	for i := 0; i < 3; i++ {
+		file := cp(ftyp)
+		for k, n := 0, 1+r.Intn(4); k < n; k++ {
+			file = append(file, hdr(top[r.Intn(len(top))])...)
+		}
+		ins = append(ins, &c20Input{name: fmt.Sprintf("boxes-empty%d", i), data: file, kind: "boxes"})
+		b := bad[r.Intn(len(bad)-2)]
+		ins = append(ins, &c20Input{name: fmt.Sprintf("boxes-empty%d-then-%s", i, b), data: append(cp(file), hdr(b)...), kind: "boxes", malformed: true})
+	}
+	for _, t := range bad {
+		ins = append(ins, &c20Input{name: "box-headeronly-" + t, data: hdr(t), kind: "box", malformed: true})
 	}
 	return ins
 }
@@ -763,6 +871,10 @@ func c20Tasks(ins []*c20Input) []c20Task {
 		switch in.kind {
 		case "box":
 			ts = append(ts, c20Task{"box/rd", in}, c20Task{"box/sr", in})
+		case "boxes":
+			for _, p := range []string{"rd", "sr", "lazy"} {
+				ts = append(ts, c20Task{"info-enc/" + p + "/all:1", in})
+			}
 		case "prog", "any":
 			for _, p := range []string{"rd", "sr", "lazy"} {
 				ts = append(ts, c20Task{"info-enc/" + p + "/all:1", in}, c20Task{"samples/" + p, in})
@@ -794,6 +906,8 @@ func c20Tasks(ins []*c20Input) []c20Task {
 			}
 		}
 	}
+	// tasks on malformed inputs last (see c20Input.malformed); the order is otherwise kept
+	sort.SliceStable(ts, func(i, j int) bool { return !ts[i].in.malformed && ts[j].in.malformed })
 	return ts
 }
 
@@ -975,6 +1089,21 @@ func genC20(c *Ctx) {
 			}
 		}
 	}
+	// every task alone once more, after all the others (well-formed and malformed, alone and concurrently) have run in
+	// this process, in a shuffled order: "no hidden mutable state across calls" - the result must be the first one
+	for _, ti := range c.R.Perm(len(tasks)) {
+		t := tasks[ti]
+		again := runTask(t)
+		c.Eval("")
+		if again != solo[ti] {
+			c.Fail("C20-differs-later "+strings.Join(strings.Split(t.op, "/")[:2], "/"), "a task run alone gives another result after other tasks have run in the same process than it gave when it ran first: state is kept across calls", fmt.Sprintf("task %s %s %d (alone again after the concurrent rounds)", t.op, t.in.name, c.Seed), again, solo[ti])
+		}
+		if m := t.in.mutated(); m != "" {
+			c.Fail("C20-input-mutated "+strings.Join(strings.Split(t.op, "/")[:2], "/"), "a task running alone wrote into the shared input bytes or into the capacity behind them", fmt.Sprintf("task %s %s %d (alone again after the concurrent rounds)", t.op, t.in.name, c.Seed), m, "shared input and the guard bytes behind each slice unchanged")
+			*t.in = *rebuildInput(c.Seed, c.Thorough(), t.in.name)
+		}
+	}
+	checkIVTable("after the second solo pass")
 }
 
 func rebuildInput(seed int64, thorough bool, name string) *c20Input {
